@@ -73,12 +73,13 @@ func parsePayload(b []byte) tag {
 }
 
 type target struct {
-	idx    int
-	addr   conn.Addr      // what the client asks for
-	ip     netip.AddrPort // where it lives (plain targets) / the source address replies claim
-	reject bool           // the router rejects this destination
-	host   *simnet.Host
-	domain bool
+	idx          int
+	addr         conn.Addr      // what the client asks for
+	ip           netip.AddrPort // where it lives (plain targets) / the source address replies claim
+	reject       bool           // the router rejects this destination
+	host         *simnet.Host
+	unresolvable bool
+	domain       bool
 }
 
 type session struct {
@@ -195,6 +196,8 @@ func Run(s *simrt.Sim, f Focus) {
 		w.UDPDelayP = util.Pick(s, []int{0, 16, 64})
 	}
 	w.UDPLatency = util.Pick(s, []time.Duration{0, 0, time.Millisecond, 20 * time.Millisecond})
+	w.TCPLatency = util.Pick(s, []time.Duration{0, 0, time.Millisecond, 20 * time.Millisecond}) // SOCKS5 associations take a while
+	w.DialDelay = util.Pick(s, []time.Duration{0, 0, 0, 5 * time.Millisecond})
 	w.SegP = util.Pick(s, []int{0, 128}) // recvmmsg batch fragmentation
 
 	// --- sessions, targets ------------------------------------------------------------------
@@ -231,6 +234,9 @@ func Run(s *simrt.Sim, f Focus) {
 		if domainHeavy {
 			kind = 3 + s.Choose(2)
 		}
+		if direct && f != FocusC05 && t.idx > 0 && s.GenChance(40) {
+			kind = 6
+		}
 		if !direct && kind >= 3 && s.GenChance(128) {
 			kind = 5 // behind a proxy any name will do
 		}
@@ -254,6 +260,12 @@ func Run(s *simrt.Sim, f Focus) {
 			t.ip = netip.AddrPortFrom(ip, port)
 			t.addr = conn.MustAddrFromDomainPort(name, port)
 			t.domain = true
+		case 6:
+			// a name that does not resolve: nothing addressed to it may arrive anywhere
+			t.addr = conn.MustAddrFromDomainPort(fmt.Sprintf("nx%d.example", t.idx), port)
+			t.domain = true
+			t.unresolvable = true
+			s.Probe("udprelay.unresolvable-target")
 		default:
 			t.addr = conn.MustAddrFromDomainPort(fmt.Sprintf("far%d.example.net", t.idx), port)
 			t.ip = netip.AddrPortFrom(netip.AddrFrom4([4]byte{198, 51, 100, byte(1 + t.idx)}), port)
@@ -411,7 +423,7 @@ func Run(s *simrt.Sim, f Focus) {
 	var upSock *simnet.UDPConn
 	if direct {
 		for _, t := range allTargets {
-			if w.HostOf(t.ip.Addr()) == t.host {
+			if t.ip.IsValid() && w.HostOf(t.ip.Addr()) == t.host {
 				e.ServeUDPTargetOn(t.host, t.ip.Addr(), t.ip.Port(), onPacket(t))
 			}
 		}
@@ -468,6 +480,9 @@ func (r *run) send(se *session, t *target, length int, mustDeliver bool) *sentPk
 	seq := se.nextSeq
 	se.nextSeq++
 	p := makePayload(magicUp, se.idx, t.idx, seq, length)
+	if t.unresolvable {
+		mustDeliver = false
+	}
 	for _, x := range se.targets {
 		if x.reject {
 			// a session whose creation may be refused by the router loses queued datagrams legitimately
